@@ -157,6 +157,22 @@ def sectionLine (cfg : Cfg) (st : St) (start : Nat) : Option St :=
             | some prev' => some { st with line := l1, sec := sec', prev := prev' }
       else some { st with error := if st.error == 0 then st.lineno else st.error }
 
+/-- second half of the `name[=:]value` branch: `l3` is the line after the separator and an inline comment were
+    cut off, `value` the index behind the separator -/
+def pairTail (cfg : Cfg) (h : Handler) (st : St) (start value : Nat) (l3 : Bytes) : Option St :=
+  match lskip cfg.sp l3 value with                               -- value = lskip(value)
+  | none => none
+  | some v =>
+    match rstrip cfg.sp l3 v with                                -- rstrip(value)
+    | none => none
+    | some l4 =>
+      match strncpy0 st.prev l4 start cfg.maxName 0 with         -- strncpy0(prev_name, name, sizeof(prev_name))
+      | none => none
+      | some prev' =>
+        match getStr l4 start, getStr l4 v with
+        | some name, some value => emit h { st with line := l4, prev := prev' } name value
+        | _, _ => none
+
 /-- the `name[=:]value` branch; `start` is the index of the first byte of the name -/
 def pairLine (cfg : Cfg) (h : Handler) (st : St) (start : Nat) : Option St :=
   match findCC cfg.sp cfg.inlinePrefixes st.line [61, 58] start false with
@@ -166,33 +182,23 @@ def pairLine (cfg : Cfg) (h : Handler) (st : St) (start : Nat) : Option St :=
     | none => none
     | some ce =>
       if ce = 61 ∨ ce = 58 then
-        match wr st.line e 0 with
+        match wr st.line e 0 with                                -- *end = '\0'
         | none => none
         | some l1 =>
           match rstrip cfg.sp l1 start with                      -- name = rstrip(start)
           | none => none
           | some l2 =>
-            match findCC cfg.sp cfg.inlinePrefixes l2 [] (e + 1) false with   -- value = end + 1
+            match findCC cfg.sp cfg.inlinePrefixes l2 [] (e + 1) false with   -- end = find_chars_or_comment(value, NULL)
             | none => none
             | some e2 =>
               match l2[e2]? with
               | none => none
               | some c2 =>
-                match (if c2 ≠ 0 then wr l2 e2 0 else some l2) with
-                | none => none
-                | some l3 =>
-                  match lskip cfg.sp l3 (e + 1) with
+                if c2 ≠ 0 then                                   -- if (*end) *end = '\0'
+                  match wr l2 e2 0 with
                   | none => none
-                  | some v =>
-                    match rstrip cfg.sp l3 v with
-                    | none => none
-                    | some l4 =>
-                      match strncpy0 st.prev l4 start cfg.maxName 0 with
-                      | none => none
-                      | some prev' =>
-                        match getStr l4 start, getStr l4 v with
-                        | some name, some value => emit h { st with line := l4, prev := prev' } name value
-                        | _, _ => none
+                  | some l3 => pairTail cfg h st start (e + 1) l3
+                else pairTail cfg h st start (e + 1) l2
       else some { st with error := if st.error == 0 then st.lineno else st.error }
 
 /-- body of the `while (reader(...))` loop for a line buffer the reader has just filled -/
@@ -343,6 +349,22 @@ def Abs.emit (h : Handler) (a : Abs) (name value : Bytes) : Abs :=
 
 def Abs.fail (a : Abs) : Abs := { a with error := if a.error == 0 then a.lineno else a.error }
 
+/-- a line that starts with `[`; `rest` is what follows the bracket -/
+def refSection (cfg : Cfg) (a : Abs) (rest : Bytes) : Abs :=
+  let k := scanCC cfg.sp cfg.inlinePrefixes [93] false rest
+  if rest[k]? = some 93 then { a with sec := (rest.take k).take (cfg.maxSection - 1), prev := [] }
+  else a.fail
+
+/-- a `name[=:]value` line `t` (trimmed, not empty) -/
+def refPair (cfg : Cfg) (h : Handler) (a : Abs) (t : Bytes) : Abs :=
+  let k := scanCC cfg.sp cfg.inlinePrefixes [61, 58] false t
+  if t[k]? = some 61 ∨ t[k]? = some 58 then
+    let name := rtrim cfg.sp (t.take k)
+    let rest := t.drop (k + 1)
+    let value := rtrim cfg.sp (ltrim cfg.sp (rest.take (scanCC cfg.sp cfg.inlinePrefixes [] false rest)))
+    ({ a with prev := name.take (cfg.maxName - 1) } : Abs).emit h name value
+  else a.fail
+
 /-- one line of text `l` (the bytes in front of the terminator) -/
 def refLine (cfg : Cfg) (h : Handler) (a0 : Abs) (l : Bytes) : Abs :=
   let a := { a0 with lineno := a0.lineno + 1 }
@@ -355,18 +377,8 @@ def refLine (cfg : Cfg) (h : Handler) (a0 : Abs) (l : Bytes) : Abs :=
   | c :: rest =>
     if cfg.startPrefixes.contains c then a
     else if cfg.multiline ∧ a.prev ≠ [] ∧ indented then a.emit h a.prev t
-    else if c = 91 then
-      let k := scanCC cfg.sp cfg.inlinePrefixes [93] false rest
-      if rest[k]? = some 93 then { a with sec := (rest.take k).take (cfg.maxSection - 1), prev := [] }
-      else a.fail
-    else
-      let k := scanCC cfg.sp cfg.inlinePrefixes [61, 58] false t
-      if t[k]? = some 61 ∨ t[k]? = some 58 then
-        let name := rtrim cfg.sp (t.take k)
-        let rest := t.drop (k + 1)
-        let value := rtrim cfg.sp (ltrim cfg.sp (rest.take (scanCC cfg.sp cfg.inlinePrefixes [] false rest)))
-        ({ a with prev := name.take (cfg.maxName - 1) } : Abs).emit h name value
-      else a.fail
+    else if c = 91 then refSection cfg a rest
+    else refPair cfg h a t
 
 def refLines (cfg : Cfg) (h : Handler) : Abs → List Bytes → Abs
   | a, [] => a
